@@ -939,6 +939,15 @@ def m_zero_for_nonempty(case):
     return all(ilen(v) == 0 for v in vals)
 
 
+def m_equal_numbers_of_different_type(case):
+    """root values that are == but of different number types: the diff reports type_changes, the numeric short cut says 0"""
+    if case.get("kind") != "deep_distance" or "exception" in case or "diff" not in case:
+        return False
+    t1, t2 = _ev(case["t1"]), _ev(case["t2"])
+    num = (bool, int, float, Decimal)
+    return isinstance(t1, num) and isinstance(t2, num) and type(t1) is not type(t2) and t1 == t2
+
+
 def m_item_length_crash(case):
     if case.get("kind") != "deep_distance" or case.get("exception") not in ("AttributeError", "TypeError"):
         return False
@@ -978,6 +987,7 @@ MATCHERS = {
     "C19-K20-date-vs-datetime": m_date_vs_datetime,
     "C19-K21-item-length-crash-on-keys": m_item_length_crash,
     "C19-K22-numpy-zero": m_numpy_zero,
+    "C19-K23-zero-for-equal-numbers-of-different-type": m_equal_numbers_of_different_type,
 }
 
 
